@@ -266,9 +266,12 @@ impl<T: RealNumber, M: Matrix<T>> ElasticNet<T, M> {
         let gamma = T::one() / (T::one() + l2_reg).sqrt();
         let padding = gamma * l2_reg.sqrt();
 
+        // centre the target before padding: the optimizer centres by the mean of the vector it is given,
+        // which for the padded vector would be sum(y) / (n + p) and would also shift the padded zeros
+        let y_mean = y.mean();
         let mut y2 = M::RowVector::zeros(n + p);
         for i in 0..y.len() {
-            y2.set(i, y.get(i));
+            y2.set(i, y.get(i) - y_mean);
         }
 
         let mut x2 = M::zeros(n + p, p);
